@@ -10,6 +10,54 @@ CLAIMED = {
     design_ref="DESIGN.md section 6 (C10)",
     note="Bounded: contents up to 4 (quick: 3 for replay) / 5 bytes over a 6-symbol alphabet with one 2-byte character. Trusted: TLC, kernel append/read semantics, the harness' hook driver (harness/src/follow.rs).",
     technique="TLA+ model checking (TLC) + spec->impl replay through a retry-point hook + impl->spec trace validation of a concurrent writer"),
+ "C03": dict(
+    category="model_checking",
+    text="Expr.tla gives the meaning of expressions over an abstract value universe, Sem.tla the meaning of SELECT/WHERE, Engine.tla the per-line machine of the code. TLC checks that the machine prints exactly Sem's rows (BatchRefinesSem, IncrSelectRefinesSem) for every input of the bounded model; every behaviour (statement x table variant x input x file split, batch and line-by-line) is executed on the real engine and compared value by value, including column names, errors and their position.",
+    design_ref='DESIGN.md section 6 (C03)',
+    note="Bounded: statements from the menus of spec/MC_Engine.tla, inputs of at most 3-5 lines over a 5-7 line alphabet, 1-3 files, the table t(k TEXT, v INT) and its NOT NULL / DEFAULT variants. Trusted: TLC, serde_json (decoding printed JSON records), the harness' SQL renderer (harness/src/sql.rs) and value projection (harness/src/val.rs).",
+    technique="TLA+ model checking (TLC): operational Engine.tla refines declarative Sem.tla; every behaviour of the bounded model replayed on FileExecutor / ExecutionEngine"),
+ "C04": dict(
+    category="model_checking",
+    text='Sem.tla defines each aggregate as a fold over the rows of a group, Engine.tla keeps running state per group like the code; TLC checks they agree for all inputs of the bounded model and every behaviour (every aggregate alone, in both positions relative to the key, in pairs, without GROUP BY, with WHERE / HAVING / wrappers) is replayed on the real code. The one open finding (a group without any aggregate entry is dropped) is modelled exactly as the deviation AggEmptyGroupDropped.',
+    design_ref='DESIGN.md section 6 (C04)',
+    note="Bounded: statements from the menus of spec/MC_Engine.tla, inputs of at most 3-5 lines over a 5-7 line alphabet, 1-3 files, the table t(k TEXT, v INT) and its NOT NULL / DEFAULT variants. Trusted: TLC, serde_json (decoding printed JSON records), the harness' SQL renderer (harness/src/sql.rs) and value projection (harness/src/val.rs).",
+    technique="TLA+ model checking (TLC): operational Engine.tla refines declarative Sem.tla; every behaviour of the bounded model replayed on FileExecutor / ExecutionEngine"),
+ "C05": dict(
+    category="model_checking",
+    text='Join index (LoadJoinLine) and per-line fan-out of Engine.tla against the declarative pairing of Sem (equal non-NULL keys, ordered by r then s, OUTER adds the NULL-extended row for non-aggregates), name resolution and * order; all behaviours replayed with real files on both sides.',
+    design_ref='DESIGN.md section 6 (C05)',
+    note="Bounded: statements from the menus of spec/MC_Engine.tla, inputs of at most 3-5 lines over a 5-7 line alphabet, 1-3 files, the table t(k TEXT, v INT) and its NOT NULL / DEFAULT variants. Trusted: TLC, serde_json (decoding printed JSON records), the harness' SQL renderer (harness/src/sql.rs) and value projection (harness/src/val.rs).",
+    technique="TLA+ model checking (TLC): operational Engine.tla refines declarative Sem.tla; every behaviour of the bounded model replayed on FileExecutor / ExecutionEngine"),
+ "C06": dict(
+    category="model_checking",
+    text='Admission rule and NoiseIsStutter (action property: a non-admitted line leaves DISTINCT memory, limit counter, aggregate state, join index and output unchanged) checked by TLC; inputs interleave every kind of non-admitted line (garbage, empty, all-NULL, near miss, NOT NULL failure) at every position; replayed in batch and incremental mode and on the joined side.',
+    design_ref='DESIGN.md section 6 (C06)',
+    note="Bounded: statements from the menus of spec/MC_Engine.tla, inputs of at most 3-5 lines over a 5-7 line alphabet, 1-3 files, the table t(k TEXT, v INT) and its NOT NULL / DEFAULT variants. Trusted: TLC, serde_json (decoding printed JSON records), the harness' SQL renderer (harness/src/sql.rs) and value projection (harness/src/val.rs).",
+    technique="TLA+ model checking (TLC): operational Engine.tla refines declarative Sem.tla; every behaviour of the bounded model replayed on FileExecutor / ExecutionEngine"),
+ "C07": dict(
+    category="model_checking",
+    text='LimitLaw via BatchRefinesSem (Sem applies Take(n)) and ConsumedBound (no line beyond the one producing the n-th row is consumed; LIMIT 0 consumes nothing) for n in 0..4 x inputs split over 1-3 files x plain / DISTINCT / NULL-only rows / join fan-out / aggregates; replay compares records and statistics().total_lines.',
+    design_ref='DESIGN.md section 6 (C07)',
+    note="Bounded: statements from the menus of spec/MC_Engine.tla, inputs of at most 3-5 lines over a 5-7 line alphabet, 1-3 files, the table t(k TEXT, v INT) and its NOT NULL / DEFAULT variants. Trusted: TLC, serde_json (decoding printed JSON records), the harness' SQL renderer (harness/src/sql.rs) and value projection (harness/src/val.rs).",
+    technique="TLA+ model checking (TLC): operational Engine.tla refines declarative Sem.tla; every behaviour of the bounded model replayed on FileExecutor / ExecutionEngine"),
+ "C08": dict(
+    category="model_checking",
+    text="DistinctLaw: Sem's StableDedup with value equality (NULL = NULL, -0.0 = 0.0) against the engine's DISTINCT memory, for SELECT and for aggregate tables (with and without HAVING, fresh memory per table in incremental mode); replayed in batch and incremental mode.",
+    design_ref='DESIGN.md section 6 (C08)',
+    note="Bounded: statements from the menus of spec/MC_Engine.tla, inputs of at most 3-5 lines over a 5-7 line alphabet, 1-3 files, the table t(k TEXT, v INT) and its NOT NULL / DEFAULT variants. Trusted: TLC, serde_json (decoding printed JSON records), the harness' SQL renderer (harness/src/sql.rs) and value projection (harness/src/val.rs).",
+    technique="TLA+ model checking (TLC): operational Engine.tla refines declarative Sem.tla; every behaviour of the bounded model replayed on FileExecutor / ExecutionEngine"),
+ "C11": dict(
+    category="model_checking",
+    text="IncrRefinesSem / IncrSelectRefinesSem: after every line of the incremental configuration the engine's table equals the declarative meaning of the consumed prefix; the per-line outputs of every behaviour are compared with ExecutionEngine::execute(update+result) step by step.",
+    design_ref='DESIGN.md section 6 (C11)',
+    note="Bounded: statements from the menus of spec/MC_Engine.tla, inputs of at most 3-5 lines over a 5-7 line alphabet, 1-3 files, the table t(k TEXT, v INT) and its NOT NULL / DEFAULT variants. Trusted: TLC, serde_json (decoding printed JSON records), the harness' SQL renderer (harness/src/sql.rs) and value projection (harness/src/val.rs).",
+    technique="TLA+ model checking (TLC): operational Engine.tla refines declarative Sem.tla; every behaviour of the bounded model replayed on FileExecutor / ExecutionEngine"),
+ "C19": dict(
+    category="model_checking",
+    text='Interrupt is an environment choice at every line boundary (hook batch_line), every printed record (printer) and every joined-file line (hook join_line); TLC checks InterruptFreeze, PrintedIsPrefix, InterruptedAggregate, NoErrorFromInterrupt; each behaviour is replayed with the flag cleared at exactly that point.',
+    design_ref='DESIGN.md section 6 (C19)',
+    note="Bounded: statements from the menus of spec/MC_Engine.tla, inputs of at most 3-5 lines over a 5-7 line alphabet, 1-3 files, the table t(k TEXT, v INT) and its NOT NULL / DEFAULT variants. Trusted: TLC, serde_json (decoding printed JSON records), the harness' SQL renderer (harness/src/sql.rs) and value projection (harness/src/val.rs).",
+    technique="TLA+ model checking (TLC): operational Engine.tla refines declarative Sem.tla; every behaviour of the bounded model replayed on FileExecutor / ExecutionEngine"),
 }
 
 TITLES = {}
